@@ -242,6 +242,15 @@ impl<'a, C: MlsConfig> Hist<'a, C> {
         }
         s.suite = self.prof.suite;
         s.bad_caps = std::mem::take(&mut self.pending_bad_caps);
+        if s.bad_caps == 4 {
+            // a client of ANOTHER cipher suite: its key packages do not fit this group (suites 1 and 3 share KEM and signature
+            // scheme, so that only the cipher-suite field itself tells them apart)
+            s.suite = match s.suite {
+                1 => 3,
+                3 => 1,
+                _ => 1,
+            };
+        }
         if self.prof.mixed_providers {
             // only providers that ship the group's suite
             let ok: Vec<u8> = (0..3u8)
@@ -618,10 +627,13 @@ impl<'a, C: MlsConfig> Hist<'a, C> {
                         // payload-invalid Add: the key package's leaf lists a default proposal / extension type among its
                         // capabilities (RFC 9420 7.2: MUST NOT be listed), or its lifetime has expired; the committer drops
                         // it, by value it is refused
-                        let bad = 1 + self.rng.below(3) as u8;
+                        let bad = 1 + self.rng.below(4) as u8;
                         self.pending_bad_caps = bad;
                         let o = self.new_member();
-                        let r = self.w.members[o].client.verif_generate_key_package_unchecked(
+                        let r = if bad == 4 {
+                            self.w.members[o].client.generate_key_package_message(Default::default(), Default::default(), None)
+                        } else {
+                            self.w.members[o].client.verif_generate_key_package_unchecked(
                             |c| match bad {
                                 1 => c.proposals.push(mls_rs::group::proposal::ProposalType::ADD),
                                 2 => c.extensions.push(mls_rs::extension::ExtensionType::RATCHET_TREE),
@@ -629,7 +641,8 @@ impl<'a, C: MlsConfig> Hist<'a, C> {
                             },
                             // 3: a lifetime that ended long ago (the committer validates Adds against the current time)
                             if bad == 3 { Some((1_000, 2_000)) } else { None },
-                        );
+                        )
+                        };
                         let Ok(kp) = r else { continue };
                         self.rep.cover.insert(format!("bad-kp:{bad}"));
                         let oid = self.w.members[o].identity.clone();
@@ -637,7 +650,7 @@ impl<'a, C: MlsConfig> Hist<'a, C> {
                         let mut gc = self.w.group(c_pre).clone();
                         let bv = gc.commit_builder().add_member(kp.clone()).and_then(|b| b.build());
                         if bv.is_ok() {
-                            self.fail("C10", format!("an invalid key package ({}) was committed by value", ["capabilities list a default proposal type", "capabilities list a default extension type", "lifetime expired"][bad as usize - 1]));
+                            self.fail("C10", format!("an invalid key package ({}) was committed by value", ["capabilities list a default proposal type", "capabilities list a default extension type", "lifetime expired", "key package of another cipher suite"][bad as usize - 1]));
                         }
                         note = format!("OFFEND add-default-listed {}", self.w.members[o].setup.name);
                         self.w.with_group(p, |g| g.propose_add(kp, vec![]))
